@@ -17,7 +17,7 @@ def make(rng, fit_intercept):
     return xs, ys, ws
 
 
-def fit(xs, ys, ws, q, fit_intercept, positive, weighted, dup):
+def fit(xs, ys, ws, q, fit_intercept, positive, weighted, dup, max_iter=100, wdtype=float):
     from mlinsights.mlmodel import QuantileLinearRegression
     if dup:         # integer weights as repeated rows
         xs2 = [x for x, w in zip(xs, ws) for _ in range(w)]
@@ -25,8 +25,8 @@ def fit(xs, ys, ws, q, fit_intercept, positive, weighted, dup):
         X, y, sw = numpy.array(xs2, dtype=float).reshape((-1, 1)), numpy.array(ys2, dtype=float), None
     else:
         X, y = numpy.array(xs, dtype=float).reshape((-1, 1)), numpy.array(ys, dtype=float)
-        sw = numpy.array(ws, dtype=float) if weighted else None
-    m = QuantileLinearRegression(quantile=q, max_iter=100, fit_intercept=fit_intercept, positive=positive)
+        sw = numpy.array(ws, dtype=wdtype) if weighted else None
+    m = QuantileLinearRegression(quantile=q, max_iter=max_iter, fit_intercept=fit_intercept, positive=positive)
     with warnings.catch_warnings():
         warnings.simplefilter("ignore")
         m.fit(X, y, sample_weight=sw)
@@ -42,10 +42,14 @@ def one(tid, rng):
     xs, ys, ws = make(rng, fit_intercept)
     if mode == "plain":
         ws = [1] * len(xs)
-    m, sc, (X, y, sw) = fit(xs, ys, ws, qa / qb, fit_intercept, positive, mode == "weighted", mode == "dup")
+    # integer weights are given as floats or as an integer array; with positive=True (only the sign is claimed) any
+    # number of IRLS passes, the first one included, must respect the constraint
+    wdtype = rng.choice([float, numpy.int64, numpy.int32])
+    max_iter = rng.choice([1, 2, 100]) if positive else 100
+    m, sc, (X, y, sw) = fit(xs, ys, ws, qa / qb, fit_intercept, positive, mode == "weighted", mode == "dup", max_iter, wdtype)
     # the fit at the opposite quantile, scored with THIS quantile's loss
     from mlinsights.mlmodel import QuantileLinearRegression
-    o, _, _ = fit(xs, ys, ws, 1 - qa / qb, fit_intercept, positive, mode == "weighted", mode == "dup")
+    o, _, _ = fit(xs, ys, ws, 1 - qa / qb, fit_intercept, positive, mode == "weighted", mode == "dup", max_iter, wdtype)
     probe = QuantileLinearRegression(quantile=qa / qb, fit_intercept=fit_intercept)
     probe.coef_, probe.intercept_ = o.coef_, o.intercept_
     with warnings.catch_warnings():
@@ -53,7 +57,7 @@ def one(tid, rng):
         so = float(probe.score(X, y, sample_weight=sw))
     s = float(numpy.ravel(m.coef_)[0])
     c = float(numpy.ravel(m.intercept_)[0]) if numpy.ndim(m.intercept_) else float(m.intercept_)
-    return dict(id=tid, X=xs, Y=ys, W=ws, qa=qa, qb=qb, fit_intercept=fit_intercept, positive=positive,
+    return dict(id=tid, X=xs, Y=ys, W=ws, qa=qa, qb=qb, fit_intercept=fit_intercept, positive=positive, full=max_iter == 100,
                 s=int(round(s * 100)), c=int(round(c * 100)), score=int(round(sc * 100)), score_other=int(round(so * 100)),
                 site=SITE, sig="q=%d/%d %s intercept=%s positive=%s" % (qa, qb, mode, fit_intercept, positive), mode=mode)
 
